@@ -24,3 +24,34 @@ Lemma gen_safety_order_guards :
   guard_row "check_publish_safety" = Some ("check_keys_publish_safety", 0, 1)%Z /\
   guard_row "check_retire_safety" = Some ("check_keys_retire_safety", 0, 1)%Z.
 Proof. repeat split; reflexivity. Qed.
+
+(* response validation as read from skr/validate.py: the bundle count, then EVERY bundle through check_valid_signatures (a for loop over
+   response.bundles, no early exit), which raises unless the flag is off or validate_signatures succeeds - the statements Model.KsrPolicy.validate_response
+   and check_valid_signatures transcribe *)
+Lemma gen_response_validation :
+  Gen.Skeleton.validate_response_shape =
+    ["if len(response.bundles) != policy.num_bundles: raise PolicyViolation"; "for bundle in response.bundles: check_valid_signatures(bundle, policy)"; "return True"] /\
+  Gen.Skeleton.check_valid_signatures_shape =
+    ["if not policy.validate_signatures: return";
+     "try: if not validate_signatures(bundle): raise InvalidSignatureViolation except InvalidSignature: raise InvalidSignatureViolation"].
+Proof. split; reflexivity. Qed.
+
+(* the overlap test, statement by statement: last bundle of SKR(n-1), first bundle of the KSR, expiration minus inception (signed: a gap is negative), the
+   two comparisons against the KSR's own bounds - what Model.Chain.check_chain_overlap transcribes *)
+Lemma gen_chain_overlap :
+  Gen.Skeleton.check_chain_overlap_shape =
+    ["if not policy.check_chain_overlap: return"; "previous = last_skr.bundles[-1]"; "ksr_first = ksr.bundles[0]";
+     "overlap = previous.expiration - ksr_first.inception";
+     "if overlap < ksr.zsk_policy.min_validity_overlap: raise KSR_CHAIN_OVERLAP_Violation";
+     "if overlap > ksr.zsk_policy.max_validity_overlap: raise KSR_CHAIN_OVERLAP_Violation"].
+Proof. reflexivity. Qed.
+
+(* which key is a KSK, a ZSK, revoked: single bits of the flags (a revoked KSK, flags 385, is a KSK) *)
+Lemma gen_key_kind_shapes :
+  Gen.Skeleton.is_zsk_key_shape =
+    ["return not is_sep_key(key)"%string] /\
+  Gen.Skeleton.is_sep_key_shape =
+    ["return bool(key.flags & FlagsDNSKEY.SEP.value)"%string] /\
+  Gen.Skeleton.is_revoked_key_shape =
+    ["return bool(key.flags & FlagsDNSKEY.REVOKE.value)"%string].
+Proof. repeat split; reflexivity. Qed.
